@@ -14,3 +14,17 @@ func VerifC06_Layout() {
 }
 
 func init() { vHarness["VerifC06_Layout"] = VerifC06_Layout }
+
+// Derived key "MAC to 64 bit": the Go function and the C program's inline helper (compiled from the current source
+// through a probe wrapper) agree for every client hardware address of every length the DHCP library can deliver
+// (chaddr[:hlen], hlen 6..16; the C side always reads the 16-byte chaddr field).
+func VerifC06_MACKey() {
+	chaddr := ndBytes("chaddr", 16)
+	hlen := 6 + ndPick("hlen-6", 11)
+	goKey := MACToUint64(chaddr[:hlen])
+	cKey := vBPFCallU64("dhcp_fastpath.probe", "verif_mac_to_u64", chaddr, 0)
+	vAssert(goKey == cKey, "MACToUint64 and the eBPF program's mac_to_u64 derive different keys for the same client hardware address")
+	vReach("end")
+}
+
+func init() { vHarness["VerifC06_MACKey"] = VerifC06_MACKey }
